@@ -7,6 +7,7 @@ spec/GroupTrace.tla     the contract evaluated on what the real code did
 harness/cmd/group       replays every case on the real functions, one member return at a time
 """
 import collections
+import concurrent.futures
 
 import vf
 
@@ -45,20 +46,38 @@ WHAT = {
 
 def run(ctx):
     thorough = ctx.tier == "thorough"
-    # 1. MC: the design (buffered response channel, guarded placement) satisfies the contract on every
-    #    behaviour: n in 0..MaxN x outcome vectors x every interleaving x 6 strategies x entry points
-    ctx.mc("Group", "GroupMC.cfg",
-           consts={"MaxN": 5 if thorough else 4, "AwareN": 3 if thorough else 1, "Cap": '"n"', "Guard": "TRUE"},
-           workers=vf.NCPU, deadlock=False, timeout=3000)
+    # The model checks, the design variants, the case generation and the harness build do not depend on
+    # each other: they run side by side (each TLC in its own scratch directory).
+    pool = concurrent.futures.ThreadPoolExecutor(max_workers=6)
+    # 1. MC: the design (buffered response channel, guarded placement, member error kinds never read) satisfies
+    #    the contract on every behaviour: n in 0..MaxN x outcome vectors x every interleaving x 6 strategies x
+    #    entry points (x aware members, context-like member errors, a cancelling caller for small n)
+    jobs = [pool.submit(ctx.mc, "Group", "GroupMC.cfg",
+                        consts={"MaxN": 5 if thorough else 4, "AwareN": 3 if thorough else 1,
+                                "KindN": 3 if thorough else 2, "Cap": '"n"', "Guard": "TRUE", "StopOnCtxErr": "FALSE"},
+                        workers=vf.NCPU, deadlock=False, timeout=3000)]
     #    ... and the model explains the two defects of the code as pinned
-    design_variant(ctx, "GroupPinnedLeak.cfg", {"MaxN": 3, "AwareN": 0, "Cap": '"zero"', "Guard": "TRUE"}, "EndedWhenNothingMoves")
-    design_variant(ctx, "GroupPinnedPanic.cfg", {"MaxN": 1, "AwareN": 0, "Cap": '"n"', "Guard": "FALSE"}, "NoPanic")
+    base = {"AwareN": 0, "KindN": 0, "Cap": '"n"', "Guard": "TRUE", "StopOnCtxErr": "FALSE"}
+    jobs.append(pool.submit(design_variant, ctx, "GroupPinnedLeak.cfg", dict(base, MaxN=3, Cap='"zero"'),
+                            "EndedWhenNothingMoves"))
+    jobs.append(pool.submit(design_variant, ctx, "GroupPinnedPanic.cfg", dict(base, MaxN=1, Guard="FALSE"), "NoPanic"))
+    #    ... and a design that lets the kind of a *member's* error (context-like) stop ExecuteOne breaks the contract
+    jobs.append(pool.submit(design_variant, ctx, "GroupStopOnCtxErr.cfg",
+                            dict(base, MaxN=2, KindN=2, StopOnCtxErr="TRUE"), "ContractHolds"))
+    jobs.append(pool.submit(ctx.harness, cmd="group"))
 
     # 2. Gen
     nrand = 150000 if thorough else 400
-    gen = ctx.tlc("GroupGen", "GroupGen.cfg",
-                  consts={"MaxN": 4, "AwareN": 3 if thorough else 2, "NRand": nrand, "MaxRandN": 8},
-                  workers=4, timeout=1800)
+    gen_job = pool.submit(ctx.tlc, "GroupGen", "GroupGen.cfg",
+                          consts={"MaxN": 4, "AwareN": 3 if thorough else 2, "KindN": 3 if thorough else 2,
+                                  "NRand": nrand, "MaxRandN": 8},
+                          workers=4, timeout=1800)
+    try:
+        gen = gen_job.result()
+        for j in jobs:
+            j.result()      # a failed model check / build is raised here (Inconclusive)
+    finally:
+        pool.shutdown(wait=True)
     cases = gen.cases()
     if len(cases) < 5316:
         raise vf.Inconclusive("Gen produced only %d cases\n%s" % (len(cases), gen.out[-2000:]))
@@ -112,8 +131,10 @@ def run(ctx):
     ctx.cov["rule"] = ("cases generated by TLC from spec/GroupGen.tla: exhaustively 0..4 members x every "
                        "success/failure vector x every completion order x 6 strategies x {ExecuteXxx directly, "
                        "Execute(strategy)}; for up to AwareN members also every set of cancellation-aware members "
-                       "x every position of a caller-side cancel; plus random cases with up to 8 members, aware "
-                       "members, caller cancel, also through onoffpb.Group.GetOnOff and "
+                       "x every position of a caller-side cancel; for up to KindN members every assignment of error "
+                       "kinds (plain, context.Canceled/DeadlineExceeded bare, %w-wrapped, gRPC status) to the failing "
+                       "members x the caller's context live / cancelled / expired at every position; plus random cases "
+                       "with up to 8 members, aware members, error kinds, caller cancel or deadline, also through onoffpb.Group.GetOnOff and "
                        "lightpb.Group.UpdateBrightness.  Each case is one call of the real code driven one member "
                        "return at a time; non-trivial = at least one member; distinct = distinct (strategy, entry "
                        "point, outcomes, aware set, order)")
